@@ -3,6 +3,7 @@ import os, json
 import concurrent.futures as cf
 import vlib
 import c20x
+import c20b
 
 LEVEL = "model_checking"
 INV = "INVARIANTS RefCount NoLeak NoDangling EmptyAtEnd NullNeverCounted TypeOK Emit\nCHECK_DEADLOCK FALSE\n"
@@ -27,6 +28,16 @@ def sig(c, r):
 
 
 def run(chk):
+    # the parallel-shutdown part (mpirun jobs, mostly waiting) runs next to everything else; it is accounted for at the end
+    finex = cf.ThreadPoolExecutor(max_workers=1)
+    finfut = finex.submit(c20b.fin_collect, chk.tier)
+    try:
+        _run(chk, finfut)
+    finally:
+        finex.shutdown(wait=True)
+
+
+def _run(chk, finfut):
     binary, = vlib.build(["c20_lifetime"], variant="asan")
     thorough = chk.tier == "thorough"
     jobs = []
@@ -63,22 +74,29 @@ def run(chk):
     chk.traces = len(cases)
     # extension to all container families (spec/LifetimeX.tla, harness/c20x_lifetime.cpp, lib/c20x.py); adds to chk.traces
     xsamples = c20x.run_ext(chk)
+    # large counts (spec/LifetimeBulk.tla, harness/c20_bulk.cpp) and Runtime::finalize on every rank of an MPI job
+    # (spec/LifetimeFin.tla, harness/c20_mpifin.cpp); lib/c20b.py
+    bsamples = c20b.run_bulk(chk)
+    fsamples = c20b.fin_account(chk, finfut.result())
     chk.exhaustive = True
     chk.rule = ("all histories of spec/Lifetime.tla up to the stated depth over 2-3 container slots (create in every shape incl. size-0 "
                 "arrays and array-less matrices, clone in all 5 modes within and across data/index types, convert, move, move-ctor, ranged "
                 "slice, layout sharing, clear, destroy in every order, overwrite) plus seeded random histories (-simulate) of depth 9-14; "
                 "each replayed on real containers in the ASan/UBSan build with reference counters, aliasing classes, sizes, contents and "
                 "live chunk count compared after every step; non-trivial = contains a sharing/moving operation; distinct = distinct history.  "
-                "Extension: " + c20x.RULE)
+                "Extension: " + c20x.RULE + ".  " + c20b.RULE)
     for c in cases[len(cases) // 2: len(cases) // 2 + 2]:
         chk.sample([[s["op"], s["args"]] for s in c["steps"]])
-    for smp in xsamples[:2]:
+    for smp in xsamples[:1] + bsamples[2:3] + fsamples[:1]:
         chk.sample(smp)
-    chk.assumptions = list(c20x.ASSUMPTIONS) + ["heap safety inside an operation is observed by ASan/UBSan on the replayed histories, not proved",
+    chk.assumptions = list(c20x.ASSUMPTIONS) + list(c20b.ASSUMPTIONS) + ["heap safety inside an operation is observed by ASan/UBSan on the replayed histories, not proved",
                        "the owner of a ranged (foreign memory) slice outlives it - an API obligation the specification makes an enabling condition"]
 
 
 def replay(obj):
+    mine = [v["replay"] for v in obj["violations"] if v.get("replay") and (v["replay"].get("harness") or "").split(":")[0] in (c20b.BULK_HARNESS, c20b.FIN_HARNESS)]
+    if mine:
+        return 1 if c20b.replay_cases(mine) else 0
     ext = [v for v in obj["violations"] if v.get("replay") and v["replay"].get("harness") == c20x.HARNESS]
     if ext:
         import importlib.util
